@@ -400,6 +400,13 @@ class Component(Spatialable):
 
     model_config = ConfigDict(arbitrary_types_allowed=True)
 
+    _calculated_costs: frozenset = PrivateAttr(default=frozenset())
+    """
+    Which of "area", "energy", "throughput" and "leak_power" have already been
+    calculated for this component. Calculated values have the scale factors and
+    ``n_parallel_instances`` applied, so they must not be calculated again.
+    """
+
     def _update_actions(self, new_actions: EvalableList[Action]):
         has_actions = oset(x.name for x in self.actions)
         for action in new_actions:
@@ -533,6 +540,9 @@ class Component(Spatialable):
         if not in_place:
             self: Component = self._copy_for_component_modeling()
 
+        if "energy" in self._calculated_costs:
+            return self
+
         messages = self.component_modeling_log
 
         for action in self.actions:
@@ -571,6 +581,7 @@ class Component(Spatialable):
                     f"Component {self.name} action {action.name} has negative energy: "
                     f"{action.energy=}"
                 )
+        self._calculated_costs = self._calculated_costs | {"energy"}
         return self
 
     def calculate_leak_power(
@@ -612,6 +623,9 @@ class Component(Spatialable):
         if not in_place:
             self: Self = self._copy_for_component_modeling()
 
+        if "leak_power" in self._calculated_costs:
+            return self
+
         messages = self.component_modeling_log
         if self.leak_power is not None:
             leak_power = self.leak_power
@@ -633,6 +647,7 @@ class Component(Spatialable):
             leak_power *= self.n_parallel_instances
             messages.append(f"Scaling leak power by {self.n_parallel_instances=}")
         self.leak_power = leak_power
+        self._calculated_costs = self._calculated_costs | {"leak_power"}
         if self.leak_power < 0:
             logging.warning(
                 f"Component {self.name} has negative leak power: {self.leak_power}"
@@ -678,6 +693,9 @@ class Component(Spatialable):
         if not in_place:
             self: Self = self._copy_for_component_modeling()
 
+        if "area" in self._calculated_costs:
+            return self
+
         messages = self.component_modeling_log
         if self.area is not None:
             area = self.area
@@ -699,6 +717,7 @@ class Component(Spatialable):
             area *= self.n_parallel_instances
             messages.append(f"Scaling area by {self.n_parallel_instances=}")
         self.area = area
+        self._calculated_costs = self._calculated_costs | {"area"}
         if self.area < 0:
             logging.warning(f"Component {self.name} has negative area: {self.area}")
         return self
@@ -729,6 +748,9 @@ class Component(Spatialable):
         """
         if not in_place:
             self: Self = self._copy_for_component_modeling()
+
+        if "throughput" in self._calculated_costs:
+            return self
 
         messages = self.component_modeling_log
 
@@ -781,6 +803,7 @@ class Component(Spatialable):
                     f"Component {self.name} action {action.name} has negative throughput: "
                     f"{action.throughput}"
                 )
+        self._calculated_costs = self._calculated_costs | {"throughput"}
         return self
 
     def calculate_component_costs(
